@@ -83,6 +83,10 @@ func ParseConfigFile(filepath string) (Config, base.LogSchema, ConfigStats, erro
 		return conf, schema, stats, err
 	}
 
+	if conf.Orchestration.Value == nil {
+		return conf, schema, stats, fmt.Errorf("orchestration is unspecified")
+	}
+
 	var orcKeys []string
 	keys, err := conf.Orchestration.Value.VerifyConfig(schema)
 	if err != nil {
@@ -99,6 +103,10 @@ func ParseConfigFile(filepath string) (Config, base.LogSchema, ConfigStats, erro
 
 	if err := bsupport.VerifyTransformConfigs(conf.Transformations, schema, "transforms"); err != nil {
 		return conf, schema, stats, err
+	}
+
+	if len(conf.OutputBuffersPairs) == 0 {
+		return conf, schema, stats, fmt.Errorf("outputBufferPairs is empty")
 	}
 
 	nameDuplicationCheckMap := make(map[string]struct{}, len(conf.OutputBuffersPairs))
